@@ -407,7 +407,7 @@ func (h *vC40H) snapshot() vC40Obs {
 	return o
 }
 
-const vC40Watchdog = 5 * time.Second
+const vC40Watchdog = 8 * time.Second
 
 // waits until the goroutines have settled in the expected configuration (or in any configuration, for the watchdog
 // time); returns the last observation and whether the expectation was met
@@ -1099,7 +1099,7 @@ func vC40ScenF(_ *vRand) vC40Scenario {
 
 // G: the on-demand start timer answers the requests on hold; the idle path then asks to be closed
 func vC40ScenG(r *vRand) vC40Scenario {
-	confs := vC40Confs(700)
+	confs := vC40Confs(1500)
 	p0 := vC40NStatic
 	k := 1 + r.Intn(2)
 	sc := vC40Scenario{name: "G-timer-answers-held", params: map[string]any{"k": k}, confs: confs}
